@@ -160,14 +160,30 @@ fn builder_for(cfgv: &Value, n: usize, w: Duration, emb: &Emb, variant: usize) -
         b = b.start_time(st(emb.map(start)));
     }
     let lim = &cfgv["limit"];
-    // Or(ec, st) can also be produced by builder composition
-    if lim["k"] == "or" && lim["l"]["k"] == "ec" && lim["r"]["k"] == "st" && variant % 2 == 1 {
-        b = b.max_itr(lim["l"]["n"].as_u64().unwrap() as usize).max_time(st(emb.map(lim["r"]["t"].as_u64().unwrap())));
-    } else if lim["k"] == "ec" && variant % 2 == 1 {
-        b = b.max_itr(lim["n"].as_u64().unwrap() as usize);
-    } else if lim["k"] == "st" && variant % 2 == 1 {
-        b = b.max_time(st(emb.map(lim["t"].as_u64().unwrap())));
-    } else if lim["k"] != "none" {
+    // Builder::max_itr / max_time / limit accumulate with Or: a left-nested Or chain can be produced by
+    // successive builder calls (odd variants), or passed as one tree (even variants)
+    fn chain<'a>(l: &'a Value, out: &mut Vec<&'a Value>) {
+        if l["k"] == "or" {
+            chain(&l["l"], out);
+            out.push(&l["r"]);
+        } else {
+            out.push(l);
+        }
+    }
+    if lim["k"] == "none" {
+        return b;
+    }
+    if variant % 2 == 1 {
+        let mut parts = Vec::new();
+        chain(lim, &mut parts);
+        for p in parts {
+            b = match p["k"].as_str().unwrap() {
+                "ec" => b.max_itr(p["n"].as_u64().unwrap() as usize),
+                "st" => b.max_time(st(emb.map(p["t"].as_u64().unwrap()))),
+                _ => b.limit(build_limit(p, emb)),
+            };
+        }
+    } else {
         b = b.limit(build_limit(lim, emb));
     }
     b
